@@ -283,6 +283,13 @@ def _append_constructor(loader, node):
 
 
 @rethrow_as_parsing_error
+def _append_constructor_md(loader, tag_suffix, node):
+    from .nodes.append import AppendNode
+    kwargs = _decode_metadata(tag_suffix)
+    return _make_node(loader, node, kwargs=kwargs, node_type=AppendNode)
+
+
+@rethrow_as_parsing_error
 def _metadata_constructor(loader, tag_suffix, node):
     kwargs = _decode_metadata(tag_suffix)
     return _make_node(loader, node, kwargs=kwargs)
@@ -295,9 +302,23 @@ def _include_constructor(loader, node):
 
 
 @rethrow_as_parsing_error
+def _include_constructor_md(loader, tag_suffix, node):
+    from .nodes.include import IncludeNode
+    kwargs = _decode_metadata(tag_suffix)
+    return _make_node(loader, node, kwargs=kwargs, node_type=IncludeNode, dict_is_data=False, parse_scalars=False)
+
+
+@rethrow_as_parsing_error
 def _prev_constructor(loader, node):
     from .nodes.prev import PrevNode
     return _make_node(loader, node, node_type=PrevNode, parse_scalars=False)
+
+
+@rethrow_as_parsing_error
+def _prev_constructor_md(loader, tag_suffix, node):
+    from .nodes.prev import PrevNode
+    kwargs = _decode_metadata(tag_suffix)
+    return _make_node(loader, node, kwargs=kwargs, node_type=PrevNode, parse_scalars=False)
 
 
 @rethrow_as_parsing_error
@@ -360,7 +381,7 @@ def _simple_eval_constructor(loader, node):
 
 
 @rethrow_as_parsing_error
-def _fstr_constructor(loader, node):
+def _fstr_constructor(loader, node, kwargs=None):
     from .nodes.fstr import FStrNode
 
     def _maybe_fix_fstr(value, *args, **kwargs):
@@ -373,7 +394,11 @@ def _fstr_constructor(loader, node):
                     return FStrNode('f' + quote + value + quote, *args, **kwargs)
             return FStrNode("f'" + value.replace(r"'", r"\'") + "'", *args, **kwargs)
 
-    return _make_node(loader, node, node_type=_maybe_fix_fstr, parse_scalars=False)
+    return _make_node(loader, node, node_type=_maybe_fix_fstr, kwargs=kwargs, parse_scalars=False)
+
+
+def _fstr_constructor_md(loader, tag_suffix, node):
+    return _fstr_constructor(loader, node, kwargs=_decode_metadata(tag_suffix))
 
 
 @rethrow_as_parsing_error
@@ -382,6 +407,14 @@ def _import_constructor(loader, node):
     module = importlib.import_module('.nodes.import', package='awesomeyaml') # dirty hack because "import" is a keyword
     ImportNode = module.ImportNode
     return _make_node(loader, node, node_type=ImportNode, parse_scalars=False)
+
+
+@rethrow_as_parsing_error
+def _import_constructor_md(loader, tag_suffix, node):
+    import importlib
+    ImportNode = importlib.import_module('.nodes.import', package='awesomeyaml').ImportNode
+    kwargs = _decode_metadata(tag_suffix)
+    return _make_node(loader, node, kwargs=kwargs, node_type=ImportNode, parse_scalars=False)
 
 
 @rethrow_as_parsing_error
@@ -497,9 +530,12 @@ add_constructor('!weak', _weak_constructor)
 add_constructor('!force', _force_constructor)
 add_constructor('!merge', _merge_constructor)
 add_constructor('!append', _append_constructor)
+add_multi_constructor('!append:', _append_constructor_md)
 add_multi_constructor('!metadata:', _metadata_constructor)
 add_constructor('!include', _include_constructor)
+add_multi_constructor('!include:', _include_constructor_md)
 add_constructor('!prev', _prev_constructor)
+add_multi_constructor('!prev:', _prev_constructor_md)
 add_constructor('!xref', _xref_constructor)
 add_multi_constructor('!xref:', _xref_constructor_md)
 add_constructor('!ref', _xref_constructor)
@@ -511,8 +547,10 @@ add_constructor('!call', _simple_call_constructor) # simple argumentless call fr
 add_multi_constructor('!eval:', _eval_constructor)
 add_constructor('!eval', _simple_eval_constructor)
 add_constructor('!fstr', _fstr_constructor)
+add_multi_constructor('!fstr:', _fstr_constructor_md)
 add_implicit_resolver('!fstr', _fstr_regex)
 add_constructor('!import', _import_constructor)
+add_multi_constructor('!import:', _import_constructor_md)
 add_constructor('!required', _required_constructor)
 add_multi_constructor('!required:', _required_constructor_md)
 add_constructor('!null', _none_constructor)
